@@ -63,7 +63,7 @@ def strip(d):
         else:
             out["indexes"][name] = ix
     for k, v in (d.get("contents") or {}).items():
-        if k.startswith("99/"):
+        if k.startswith("99/") or "#" in k:
             continue
         out["contents"][k] = v
     return out
